@@ -52,7 +52,7 @@ type runner struct {
 
 	// measured
 	nReqWindows, nOptWindows, nEvents, nChanges, nSilent, nContended, nEvicted, nDestroyed int
-	maxSenders, nDoubleClaims                                                             int
+	maxSenders, nDoubleClaims, nIdleChanged                                               int
 	overlaps                                                                              int64
 }
 
@@ -528,7 +528,7 @@ func (x *runner) barrier() {
 		synctest.Wait()
 		return
 	}
-	deadline := time.Now().Add(30 * time.Second)
+	deadline := time.Now().Add(10 * time.Second)
 	for {
 		v := fmt.Sprintf("probe%d", x.uid.Add(1))
 		if _, err := x.setReq(pinKey, &hydrapb.KeyValuePair{StringVal: &v}, true, true); err != nil {
@@ -605,6 +605,20 @@ func (x *runner) gapCheck(s *sub, upto int, ri int) {
 
 // ---------------------------------------------------------------------------------------------
 
+func sameState(a, b map[string]mval) bool {
+	for _, k := range allKeys() {
+		if k == pinKey { // rewritten by the real-time barrier
+			continue
+		}
+		v, p := a[k]
+		w, q := b[k]
+		if p != q || v != w {
+			return false
+		}
+	}
+	return true
+}
+
 func sortedSubs(m map[int]*sub) []*sub {
 	var out []*sub
 	for _, s := range m {
@@ -652,9 +666,27 @@ func (x *runner) run() {
 				}
 			}
 		}
-		state0 := map[string]mval{}
-		for k, v := range x.model {
-			state0[k] = v
+		// the state the round starts from is read now: an idle eviction and reload between two
+		// rounds can change what the swamp holds (lost or resurrected keys are decided by the
+		// lifecycle / durability properties, not here)
+		state0 := x.readState()
+		if ri > 0 && !sameState(state0, x.model) {
+			x.nIdleChanged++
+			for _, k := range allKeys() {
+				_, p := x.model[k]
+				_, q := state0[k]
+				if k != pinKey && p != q {
+					x.c.Seen("idle_changes", fmt.Sprintf("store=%s present-before-idle=%v present-after=%v", x.h.Store, p, q))
+				}
+			}
+		}
+		x.model = state0
+		for _, s := range x.subs {
+			if s.inWin {
+				n := s.fs.length()
+				x.gapCheck(s, n, ri)
+				s.from = n
+			}
 		}
 		// -------- the round
 		start := make(chan struct{})
